@@ -48,3 +48,10 @@ Proof. exact tie_execute_all. Qed.
 Check C02_source_execute : forall t f, TInv t -> w_execute Om (zabs t) (wabs t) f = Some (wres (execute t f)).
 Print Assumptions C02_source_execute.
 
+(** further methods regenerated in W-mode (swap / Buffer::new / tabs / dirty-list events, the buffer.resize query) *)
+(** the public resize operation of the model (stepM (Resize c r)) is the regenerated Terminal::resize followed by the flush *)
+Theorem C02_source_resize_op : forall v c r, ZW (vterm v) -> 1 <= c -> 1 <= r -> match w_resize Om (zabs (vterm v)) (wabs (vterm v)) (Z.of_nat c) (Z.of_nat r) with Some (s, w, ok, _) => ok = true /\ stepM v (Resize c r) = vt_flush (v <| vterm := zput s w |>) | None => exists e, stepM v (Resize c r) = Panic e end.
+Proof. exact tie_resize_op. Qed.
+Check C02_source_resize_op : forall v c r, ZW (vterm v) -> 1 <= c -> 1 <= r -> match w_resize Om (zabs (vterm v)) (wabs (vterm v)) (Z.of_nat c) (Z.of_nat r) with Some (s, w, ok, _) => ok = true /\ stepM v (Resize c r) = vt_flush (v <| vterm := zput s w |>) | None => exists e, stepM v (Resize c r) = Panic e end.
+Print Assumptions C02_source_resize_op.
+
